@@ -72,7 +72,11 @@ func (t *bucketTable) durTok(d time.Duration) int {
 	return -99999
 }
 
-var c20Pool = []absSpec{{"value", []int{1, 4}}, {"value", []int{4, 1}}, {"value", []int{2, 3}}, {"duration", []int{1, 4}}, {"value", []int{5}}, {"duration", []int{2, 3}}, {"duration", []int{3, 2}}, {"value", []int{1, 1, 3}}}
+var c20Pool = []absSpec{{"value", []int{1, 4}}, {"value", []int{4, 1}}, {"value", []int{2, 3}}, {"duration", []int{1, 4}}, {"value", []int{5}}, {"duration", []int{2, 3}}, {"duration", []int{3, 2}}, {"value", []int{1, 1, 3}},
+	// a longer set whose extra bound contributes nothing to the (commutative) cache identity, created before its prefix
+	{"value", []int{1, 4, 0}}, {"duration", []int{2, 3, 0}},
+	// only the first two bounds out of order
+	{"value", []int{3, 2, 4, 6}}}
 
 var bucketTables = []*bucketTable{
 	{"subnormal+ns", 0, func(e int) time.Duration { return time.Duration(e) }, false},                                        // value and duration identities collide too
@@ -297,8 +301,9 @@ func init() {
 					sc = root.Tagged(map[string]string{"i": fmt.Sprint(i)})
 				}
 				kind, used, ok := histBounds(sc, rc, fmt.Sprint("h", i), t, pool[pi])
+				asc := sort.IntsAreSorted(used) // the buckets a histogram allocates come in ascending order of their bounds
 				sort.Ints(used)
-				tr.Emit(M{"e": "hist", "wanted": pool[pi], "used_kind": kind, "used": used, "table": t.name})
+				tr.Emit(M{"e": "hist", "wanted": pool[pi], "used_kind": kind, "used": used, "ascending": asc, "table": t.name})
 				tr.Emit(M{"e": "slice", "unchanged": ok})
 				evals++
 			}
